@@ -170,6 +170,7 @@ def run(ctx: core.Ctx) -> int:
     ctx.oblige("PURE", f"{PY}:{qual}", f"reads self.{reads}", not reads, file=PY, func=qual, construct="reads:" + ",".join(reads),
                msg=f"the decision depends on filter state other than the configuration: self.{reads}")
     ctx.extra["forms"] = forms
+    config_pass(ctx)
     # ---- C++ siblings (clang AST) -- filled in by cpp side
     try:
         from .. import cppforms
@@ -181,6 +182,46 @@ def run(ctx: core.Ctx) -> int:
         ctx.error("C++ side of C06 not available")
     return core.finish(ctx, explanation="E3 normal forms of the three decision implementations + path/effect facts of the early return",
                        **META)
+
+
+def config_pass(ctx: core.Ctx):
+    """CONFIG-PASS: the configuration the caller gives reaches Config unaltered (a dict is converted by Config(**config) as is; None
+    selects Config()).  Dropping / defaulting entries on the way changes documented settings such as innovation_filtering=None."""
+    ctx.rule("CONFIG-PASS", "config given by the caller reaches Config(**config) / is used as is; only None selects the defaults")
+    sites = [("py/formak/python.py", None, "compile"), ("py/formak/python.py", None, "compile_ekf"), ("py/formak/python.py", "Model", "__init__"),
+             ("py/formak/cpp.py", None, "compile"), ("py/formak/cpp.py", None, "compile_ekf"), ("py/formak/cpp.py", "Model", "__init__"),
+             ("py/formak/cpp.py", "ExtendedKalmanFilter", "__init__")]
+    n = 0
+    for rel, cls, name in sites:
+        mod = ctx.parse(rel)
+        scope = core.find_class(mod, cls) if cls else mod
+        fn = core.find_func(scope, name) if scope is not None else None
+        qual = f"{cls}.{name}" if cls else name
+        if fn is None:
+            ctx.error(f"anchor missing: {rel}:{qual}")
+            continue
+        if "config" not in [a.arg for a in fn.args.args + fn.args.kwonlyargs]:
+            ctx.error(f"{rel}:{qual} has no `config` parameter")
+            continue
+        n += 1
+        bad = []
+        for s_ in ast.walk(fn):
+            if isinstance(s_, ast.Assign) and any(isinstance(t, ast.Name) and t.id == "config" for t in s_.targets):
+                v = ast.unparse(s_.value).replace(" ", "")
+                if v not in ("Config()", "Config(**config)"):
+                    bad.append((s_.lineno, f"config = {ast.unparse(s_.value)[:80]}"))
+            if isinstance(s_, ast.Call) and isinstance(s_.func, ast.Attribute) and isinstance(s_.func.value, ast.Name) and s_.func.value.id == "config" \
+                    and s_.func.attr in ("pop", "popitem", "clear", "update", "setdefault"):
+                bad.append((s_.lineno, ast.unparse(s_)[:80]))
+            if isinstance(s_, ast.Delete) and any("config" in ast.unparse(t) for t in s_.targets):
+                bad.append((s_.lineno, ast.unparse(s_)[:80]))
+            if isinstance(s_, ast.Assign) and any(isinstance(t, ast.Subscript) and ast.unparse(t.value) == "config" for t in s_.targets):
+                bad.append((s_.lineno, ast.unparse(s_)[:80]))
+        ctx.oblige("CONFIG-PASS", f"{rel}:{qual}", "config -> Config() | Config(**config) only", not bad, file=rel, func=qual,
+                   construct="config alteration:" + ";".join(b[1] for b in bad),
+                   msg=f"{qual} alters the caller's configuration before it is used ({'; '.join(b[1] + ' (line ' + str(b[0]) + ')' for b in bad)}): "
+                       f"a documented setting such as innovation_filtering=None (filtering disabled) is silently replaced", line=bad[0][0] if bad else None)
+    ctx.floor("CONFIG-PASS", n, 7, "config entry sites")
 
 
 def _is_input(v, name):
